@@ -1142,8 +1142,17 @@ def rng_term(st, r):
     return freeze(st, v)
 
 
+def _rng_failed(I, st, dst, call, t):
+    st.assume[call] = 1
+    st.ev('outcome', call, 'Err')
+    yield st, Err(App('RngError', call))
+
+
 @model('rand_core::RngCore::fill_bytes', 'rand_core::RngCore::try_fill_bytes')
 def m_fill(I, st, callee, argv, depth, t, dty):
+    if callee['name'] == 'try_fill_bytes':
+        # fork before anything is written: the failing outcome leaves the destination untouched
+        failed = st.copy()
     k = st.rng
     st.rng += 1
     rng = rng_term(st, argv[0])
@@ -1154,7 +1163,10 @@ def m_fill(I, st, callee, argv, depth, t, dty):
         I.write_res(st, ('cell', dst[1], dst[2]), val)
     st.ev('rng', 'fill_bytes', rng, k, L, span(t))
     if callee['name'] == 'try_fill_bytes':
+        # the fallible interface can fail: on that outcome nothing was drawn and the destination keeps whatever it held
         yield st, Ok(UNIT)
+        failed.rng = st.rng
+        yield from _rng_failed(I, failed, dst, App('RngCore::try_fill_bytes', rng, Int(k)), t)
     else:
         yield st, UNIT
 
